@@ -67,7 +67,11 @@ def pair_plan(p, tier, rng):
     for name in sorted(g):
         ids = g[name]
         fam = name.split(":")[0]
-        if fam in ("algo", "api", "nat"):
+        if fam == "multi":
+            cand = [(a, b) for a in ids for b in ids if a != b]
+            rng.shuffle(cand)
+            out += [(name, a, b) for a, b in cand[: 8 if tier == "quick" else 20]]
+        elif fam in ("algo", "api", "nat"):
             cand = [(a, b) for a in ids for b in ids if a != b]
             rng.shuffle(cand)
             out += [(name, a, b) for a, b in cand[: sz["pairs_per_group"] if fam == "algo" else max(2, sz["pairs_per_group"] // 4)]]
@@ -108,9 +112,10 @@ def plan(tier, seed):
             sh.append({"kind": "explore", "pairs": pairs[i::n], "gran": "instr", "tier": tier, "_name": f"explore-instr-{i}"})
     for i in range(2 if tier == "quick" else 6):
         sh.append({"kind": "stress", "part": i, "tier": tier, "inject": tier == "thorough" and i % 2 == 1, "_name": f"stress-{i}"})
-    types = [("valid", "valid"), ("valid", "twin"), ("generate", "valid"), ("valid", "generate"), ("generate", "generate"), ("twin", "valid")]
-    for i in range(3 if tier == "quick" else 6):
-        sh.append({"kind": "fresh", "type_pairs": types[i::3] if tier == "quick" else [types[i]], "tier": tier, "_name": f"fresh-explore-{i}"})
+    types = [("valid", "burst"), ("generate", "burst"), ("twin", "burst"), ("valid", "valid"), ("generate", "valid"), ("valid", "generate"), ("generate", "generate"), ("twin", "valid"), ("valid", "twin")]
+    nf = 3 if tier == "quick" else 9
+    for i in range(nf):
+        sh.append({"kind": "fresh", "type_pairs": types[i::nf], "tier": tier, "_name": f"fresh-explore-{i}"})
     sh.append({"kind": "solo", "tier": tier, "_name": "solo"})
     for i in range(sz["cold"]):
         sh.append({"kind": "cold", "part": i, "tier": tier, "_name": f"cold-{i}"})
@@ -140,7 +145,7 @@ def run_explore(shard, mon, S, p):
     rng = env.rng("C14", shard["_name"])
     traces = set()
     budget = sz["budget"]
-    order = sorted(shard["pairs"], key=lambda x: 0 if x[0].startswith(("algo", "api", "nat")) else 1)
+    order = sorted(shard["pairs"], key=lambda x: 0 if x[0].startswith("multi") else 1 if x[0].startswith(("algo", "api", "nat")) else 2)
     try:
         for name, a, b in order:
             if mon.evaluations >= budget:
@@ -174,8 +179,14 @@ def run_explore(shard, mon, S, p):
 
             judge_run(base, {"first": 0, "preempt": []})
             mon.distinct((a, b, gran, 0, ()))
+            cap = 400 if shard["tier"] == "quick" else 6000
             for first, n_first in ((0, na), (1, nb)):
-                for k in range(1, n_first + 1):
+                ks = range(1, n_first + 1)
+                if n_first > cap:
+                    # very long calls: evenly spaced preemption points plus a seeded random sample
+                    ks = sorted(set(range(1, n_first + 1, max(1, n_first // (cap // 2)))) | {rng.randint(1, n_first) for _ in range(cap // 2)})
+                    mon.tally("pairs_with_sampled_preemption_points")
+                for k in ks:
                     r = sched.run(thunks, first=first, preempt={(first, k)}, trace=True)
                     judge_run(r, {"first": first, "preempt": [[first, k]]})
                     mon.distinct((a, b, gran, first, (k,)))
@@ -318,6 +329,17 @@ def run_fresh_explore(shard, mon, S, p):
             d = int(t[2:4])
             t = t[:2] + f"{rng.choice([x for x in range(100) if x != d]):02d}" + t[4:]
             return (lambda: calls.execute(S, {"fn": "iban_is_valid", "text": t})), (lambda out: out == ["ok", False]), t
+        if kind == "burst":
+            texts = []
+            for _ in range(170):
+                c2 = rng.choice(cs)
+                texts.append(R_.make_iban(c2, G_.random_bban(table[c2], rng)))
+
+            def burst():
+                bad_ = [t_ for t_ in texts if calls.execute(S, {"fn": "iban_is_valid", "text": t_}) != ["ok", True]]
+                return ["ok", bad_]
+
+            return burst, (lambda out: out == ["ok", []]), {"burst_of_fresh_valid_ibans": len(texts)}
         cc = rng.choice(gen_cs)
         pos = D_.positions(table[cc])
         bank = "".join(rng.choice(R_.DIGITS) for _ in range(pos["bank_code"][1] - pos["bank_code"][0])) if cc != "NL" else "".join(rng.choice(R_.UPPER) for _ in range(4))
@@ -330,15 +352,15 @@ def run_fresh_explore(shard, mon, S, p):
 
     sched = Scheduler(env.PKG, "line")
     sched.install()
-    reps = 5 if shard["tier"] == "quick" else 60
+    reps = 3 if shard["tier"] == "quick" else 40
     try:
         for ka, kb in shard["type_pairs"]:
-            for _ in range(reps):
+            for _ in range(1 if (kb == "burst" and shard["tier"] == "quick") else reps):
                 ta, ca, ia = make(ka)
                 tb, cb, ib = make(kb)
                 base = sched.run([ta, tb], first=0)
                 na, nb = base["steps"]
-                for first, n_first in ((0, na), (1, nb)):
+                for first, n_first in ((0, na),) if kb == "burst" else ((0, na), (1, nb)):
                     for k in range(1, n_first + 1):
                         for _f in range(rng.randrange(3)):
                             make("valid")[0]()  # filler: moves cache fill levels between schedules
